@@ -579,6 +579,9 @@ func isNegOf(g *ir.Term, conds []*ir.Term) bool {
 func (e *Env) decodeCallAllowed(t *ir.Term, l *facts.Level) bool {
 	switch t.Op {
 	case ir.OBuiltin:
+		if t.Str == "append" {
+			return errOptionList(t) // collecting the options of the error under construction
+		}
 		return t.Str == "len" || t.Str == "errors.Is"
 	case ir.OCall:
 		fn, _ := t.Obj.(*types.Func)
@@ -602,6 +605,31 @@ func (e *Env) decodeCallAllowed(t *ir.Term, l *facts.Level) bool {
 				return true
 			}
 		}
+	}
+	return false
+}
+
+// errOptionList: a slice built only from errs.WithContext / errs.WithCause values (a literal list, nil, or
+// appends to such a slice): the options of an error under construction.
+func errOptionList(t *ir.Term) bool {
+	switch {
+	case t.Op == "list":
+		for _, a := range t.Args {
+			fn, _ := a.Obj.(*types.Func)
+			if a.Op != ir.OCall || fn == nil || (fn.FullName() != "github.com/goark/errs.WithContext" && fn.FullName() != "github.com/goark/errs.WithCause") {
+				return false
+			}
+		}
+		return true
+	case t.Op == ir.OConst && t.C == nil:
+		return true
+	case t.Op == ir.OBuiltin && t.Str == "append":
+		for _, a := range t.Args {
+			if !errOptionList(a) {
+				return false
+			}
+		}
+		return true
 	}
 	return false
 }
